@@ -208,7 +208,7 @@ fn main() {
             let first_ext = pair.b.days.get(par.p.unwrap_or(0)).copied().unwrap_or(0) - pair.b.days.first().copied().unwrap_or(0);
             let apr6 = NaiveDate::from_ymd_opt(2024, 4, 6).unwrap_or(bds[0]) - chrono::Duration::days(first_ext);
             vec![(bds[0], Order::Canonical, "plain"), (bds[1], Order::Shuffled(case_no as u64), "plain"), (bds[7], Order::ActionsFirst, "plain"), (apr6, Order::Canonical, "plain"),
-                 (bds[0], Order::Canonical, "mixed_fills"), (bds[0], Order::Canonical, "later_lines_first")]
+                 (bds[0], Order::Canonical, "mixed_fills"), (bds[0], Order::Canonical, "later_lines_first"), (bds[0], Order::Canonical, "padded")]
         } else {
             vec![(base, Order::Canonical, "plain"), (base, Order::Shuffled(case_no as u64), "plain"), (base, Order::ActionsFirst, "plain")]
         };
@@ -232,6 +232,19 @@ fn main() {
                     ta.sort_by_key(|t| (t.date, matches!(t.operation, cgt_core::Operation::Buy { .. } | cgt_core::Operation::Sell { .. })));
                     let mut tb: Vec<Transaction> = render(&pair.b, &r).into_iter().filter(|t| t.date > lp).collect();
                     tb.extend(ta.clone());
+                    (ta, tb)
+                }
+                // the later transactions are MANY: 70 later purchases of another security, so that the file grows from a handful
+                // of lines past any size threshold (64, 128 lines ...) at which an implementation might switch data structures
+                "padded" => {
+                    if case_no % 3 != 0 { continue; }
+                    let ta = render(&pair.a, &r);
+                    let mut tb = render(&pair.b, &r);
+                    let last = tb.iter().map(|t| t.date).max().unwrap_or(base);
+                    for i in 0..70i64 {
+                        tb.push(Transaction { date: last + chrono::Duration::days(40 + i), ticker: "ZZPAD".into(),
+                            operation: cgt_core::Operation::Buy { amount: rust_decimal::Decimal::ONE, price: cgtv::ledger::gbp(cgtv::rat::Rat::int(5)), fees: cgtv::ledger::gbp(cgtv::rat::Rat::ZERO) } });
+                    }
                     (ta, tb)
                 }
                 _ => (render(&pair.a, &r), render(&pair.b, &r)),
